@@ -497,6 +497,8 @@ def cases(tier):
                     continue
                 if tier != "quick" and exc != "ValueError" and (n, i) not in ((2, 1), (0, 0), (3, 3)):
                     continue
+                if tier != "quick" and exc in ("ZeroDivisionError", "CustomBase", "GeneratorExit", "Surrogate") and (n, i) != (2, 1):
+                    continue
                 for dropped in (False, True):
                     if kind == "body" and dropped:
                         continue
